@@ -592,13 +592,36 @@ func (p *Path) store(addr value, v value) {
 		if a == nil {
 			p.rtPanic("invalid memory address or nil pointer dereference")
 		}
-		*a = copyVal(v)
+		storeInPlace(a, v)
 		return
 	case *symRef:
 		p.symStore(a, v)
 		return
 	}
 	panic(fmt.Sprintf("store to %T", addr))
+}
+
+// storeInPlace writes v into the slot, field by field for structs and arrays,
+// so that pointers previously taken to fields/elements of the destination stay
+// valid and observe the new contents (as in real memory).
+func storeInPlace(a *value, v value) {
+	switch nv := v.(type) {
+	case structure:
+		if old, ok := (*a).(structure); ok && len(old) == len(nv) {
+			for i := range nv {
+				storeInPlace(&old[i], nv[i])
+			}
+			return
+		}
+	case array:
+		if old, ok := (*a).(array); ok && len(old) == len(nv) {
+			for i := range nv {
+				storeInPlace(&old[i], nv[i])
+			}
+			return
+		}
+	}
+	*a = copyVal(v)
 }
 
 func (p *Path) symLoad(a *symRef) value {
